@@ -69,7 +69,7 @@ NestedInit(kind, n) ==
 
 (* one step: a valid call c on target tg = <<token, path>> creating `cells` / nested containers `nc` *)
 Do(tg, c, cells, nc, extra) ==
-  /\ (Shape = <<>> \/ c.op \in Shape[ops + 1])
+  /\ (IF Len(Shape) = 0 THEN TRUE ELSE c.op \in Shape[ops + 1])
   /\ CallValid(D, tg[1], c, Unit)
   /\ D' = LET D2 == ApplyCall(D, tg[1], c, cells, nc, Unit)
               reach == ReachFrom(D2, Roots, 12)
